@@ -11,8 +11,16 @@ binding:   (a) CASE lines of the bounded configuration (every string up to lengt
                shortest paths and along random walks; all four attributes compared after each call;
            (c) random strings (up to 25 characters, alphabet + foreign characters) and random
                assignment sequences recorded from the real classes and validated by TLC.
-negative controls run in every check (spec level): DollarAnchor, UnicodeDigits, NoRollback must make
-TLC report AcceptExact / ImplRefines violated; corrupted literal traces must be rejected.
+           In (b) and (c) the object is also observed BEHAVIOURALLY after every call (KeyFresh: the
+           object state is a function of full_version alone, no memoised / cached derived state
+           survives an assignment): hash / == / < are called before each assignment, and after it
+           (accepted or rejected) v must be indistinguishable from fresh = type(v)(v.full_version):
+           attributes, str, hash, ==, <, >, version_compare(v, fresh) == 0 and the same order
+           against two fixed probe versions.  The outcome is the `key` component of the projected
+           state, which TLC's EDGE lines / the trace module predict (= parsed components of full).
+negative controls run in every check (spec level): DollarAnchor, UnicodeDigits, NoRollback, StaleKey
+must make TLC report AcceptExact / ImplRefines / KeyFresh violated; corrupted literal traces must be
+rejected.
 """
 import json
 import os
@@ -23,8 +31,8 @@ from lts import LTS, skey, strip
 
 MANIFEST = dict(
     technique="TLA+ spec over code points (VersionString: reference Valid/Unspec/Decompose + regex/__setattr__ implementation layer) model-checked by TLC; bounded-exhaustive CASE lines and the complete object LTS replayed into Version/NativeVersion/BaseVersion; recorded constructions and assignment sequences validated by TLC (TraceVersionString)",
-    text="TLC enumerates every string up to length 4 (quick) / 5 (thorough) over 12 code points (digit, letter, . + ~ - :, space, LF, '_', non-ASCII letter, non-ASCII digit) and checks that the transcription of re_valid_version accepts exactly the valid strings outside the unspecified zone of D2, decomposes them like the reference and that Recompose(Decompose(s)) = s; it also explores the object LTS (12 start versions + 7 non-versions x 8 assignment values x 3 components + full_version + copy, closed up to a length bound) and checks that the transcription of __setattr__ (assign private, recompute, re-validate, roll back) refines 'recomposed valid version or ValueError with the object unchanged'. Every CASE line is replayed into the three real classes with several class-preserving concretizations (other digits/letters, tab, CR, U+0663, U+FF11, ...), every LTS edge and random walks are replayed with all four attributes compared after each call, and constructions/assignment sequences recorded from the real classes on random text up to 25 characters are validated by TLC on the concrete code points.",
-    note="Small scope: strings <= 5 symbols exhaustively, longer ones sampled (traces); the LTS is closed only up to Len(full_version) <= 7/11 because 'a-b' as revision and '1:2' as epoch grow the version without bound. Unspecified (executed, never judged): D2 zone (over version characters: nothing / a colon after the last hyphen, nothing before it), None as upstream, '' as revision. Trusted: TLC, the projection (four attributes, str()), the class-preserving concretizer (cross-checked by feeding concretized cases to trace validation). Spec-level negative controls and corrupted control traces are run in every check.",
+    text="TLC enumerates every string up to length 4 (quick) / 5 (thorough) over 12 code points (digit, letter, . + ~ - :, space, LF, '_', non-ASCII letter, non-ASCII digit) and checks that the transcription of re_valid_version accepts exactly the valid strings outside the unspecified zone of D2, decomposes them like the reference and that Recompose(Decompose(s)) = s; it also explores the object LTS (12 start versions + 7 non-versions x 8 assignment values x 3 components + full_version + copy, closed up to a length bound) and checks that the transcription of __setattr__ (assign private, recompute, re-validate, roll back) refines 'recomposed valid version or ValueError with the object unchanged'. Every CASE line is replayed into the three real classes with several class-preserving concretizations (other digits/letters, tab, CR, U+0663, U+FF11, ...), every LTS edge and random walks are replayed with all four attributes compared after each call, and constructions/assignment sequences recorded from the real classes on random text up to 25 characters are validated by TLC on the concrete code points. The object model carries a derived comparison key (invariant KeyFresh: the state is a function of full_version alone); the binding observes it behaviourally after every accepted or rejected assignment (hash/==/< called before the assignment; afterwards v must equal, hash, print and order like a fresh object built from v.full_version, also against two fixed probe versions, and version_compare must give 0), so memoised or cached derived state that an assignment does not invalidate is detected.",
+    note="Small scope: strings <= 5 symbols exhaustively, longer ones sampled (traces); the LTS is closed only up to Len(full_version) <= 7/11 because 'a-b' as revision and '1:2' as epoch grow the version without bound. Unspecified (executed, never judged): D2 zone (over version characters: nothing / a colon after the last hyphen, nothing before it), None as upstream, '' as revision. Trusted: TLC, the projection (four attributes, str()), the class-preserving concretizer (cross-checked by feeding concretized cases to trace validation). Spec-level negative controls (DollarAnchor, UnicodeDigits, NoRollback, StaleKey) and corrupted control traces are run in every check. BaseVersion has no comparison: only attributes, str and hash are compared with the fresh object there.",
     design="5 (C14)")
 
 ABSENT = [-1]
@@ -612,7 +620,7 @@ def run(ctx):
         "object LTS closed only up to Len(full_version) <= %d: 'a-b' as revision / '1:2' as epoch grow the version without bound (DESIGN.md called it closed)" % (7 if quick else 11),
         "unspecified, executed but never judged: D2 zone (version characters only: nothing or a colon after the last hyphen, nothing before it), None as upstream, '' as revision, any assignment recomposing into the zone",
         "concretization is class-preserving (the reference layer only tests class membership); concretized cases are cross-checked by trace validation on the concrete code points",
-        "trusted: TLC, the projection (full_version/epoch/upstream_version/debian_revision, str, debian_version alias), the concretizer",
+        "trusted: TLC, the projection (full_version/epoch/upstream_version/debian_revision, str, debian_version alias; key = behaves like type(v)(v.full_version) in attributes/str/hash/==/</>/version_compare/order against probes 1.0-1 and 1:0), the concretizer",
     ]
     workers = min(8, core.NCPU)
 
